@@ -101,6 +101,13 @@ CHECKS = {
          "compared exactly with the model, which receives the real f64 guess through a hook and reports non-termination within 400 steps.",
          "Trusted: f64 initial guess (hook), Lean kernel, extractor, harness/driver. The headline bound is established per sampled input by an exact certificate, not for all inputs.",
          "Lean 4 structural theorems + exact certificate oracle + differential correspondence; partial proof", "DESIGN.md §5 C12"),
+ "C13": ("PARTIAL BY NATURE. Lean model of exp (series loop with exact powers/factorials, impl_division per term - whose correct rounding is the theorem of C08 -, convergence test on the value "
+         "trimmed to precision+5 digits, e^-x = 1/e^x). Kernel-checked: exp(0) = 1. NOT proved: that the stopping test implies the tail is negligible, hence the one-unit bound for every x. "
+         "That gap is closed per sampled input: every result of the real code is judged against a rational enclosure of e^x computed in outward-rounded interval arithmetic (scaling and squaring, "
+         "Taylor partial sums with remainder bound) - strictly positive, configured digit count, within one unit of the last digit - and compared exactly with the model; ordered pairs check the "
+         "two-ulp order property.",
+         "Trusted: the e^x enclosure oracle (derivation stated in Spec/ExpEnclosure.lean, soundness not yet a Lean theorem), Lean kernel, extractor, harness/driver. The headline bound holds per sampled input only.",
+         "Lean 4 executable model + interval-arithmetic oracle + differential correspondence; partial proof", "DESIGN.md §5 C13"),
 }
 
 NOT_YET = "check under construction in this round (not yet claimed); see DESIGN.md §11 order of work"
